@@ -658,6 +658,28 @@ end
 
 def rejectStr (e : PlanErr) : String := s!"reject {fmtPlanErr e} prepull=0"
 
+def goTypeName : Option V → String
+  | none => "a Go type outside the five value types"
+  | some .nil => "nil"
+  | some (.int _) => "int64"
+  | some (.dec _) => "float64"
+  | some (.str _) => "string"
+  | some (.bool _) => "bool"
+  | some (.ts _) => "time.Time"
+
+/-- the first cell of a row that breaks the schema: reason text -/
+def rowFault (metas : List FieldMeta) (ts : Int) (cells : List (Option V)) : Option String :=
+  if cells.length != metas.length then
+    some s!"row at ts {ts} has {cells.length} cells for {metas.length} declared fields"
+  else
+    (metas.zip cells).findSome? fun p =>
+      let ok := match p.2 with
+        | some v => cellOk p.1 v
+        | none => false
+      if ok then none
+      else if p.2.map Val.isNil == some true then some s!"field {p.1.urn} declared required holds nil (row at ts {ts})"
+      else some s!"field {p.1.urn} declared {fmtDt p.1.dt} holds {goTypeName p.2} (row at ts {ts})"
+
 /-- C10's clause list evaluated on an observation: (ok?, reason) -/
 def soundObs (o : Obs) : Bool × String :=
   if o.prepull != 0 then (false, s!"records pulled during Execute: {o.prepull}")
@@ -667,10 +689,8 @@ def soundObs (o : Obs) : Bool × String :=
       if !metasOk o.metas then (false, "metadata: empty/duplicate urn or invalid data type")
       else if o.rowerr then (true, "")
       else
-        let bad := o.rows.find? fun r =>
-          !(r.2.all Option.isSome && rowOk o.metas (r.2.filterMap id))
-        match bad with
-        | some r => (false, s!"row at ts {r.1} does not conform to the declared schema")
+        match o.rows.findSome? fun r => rowFault o.metas r.1 r.2 with
+        | some why => (false, why)
         | none =>
           if !increasing (o.rows.map (·.1)) then (false, "timestamps not strictly increasing") else (true, "")
 
